@@ -156,7 +156,7 @@ func c34tables(c *core.Ctx) {
 	// ReadyTarget
 	if fn := c.Fn("C34.b", "internal/rsync", "(*ReadyTarget).Subscribe"); fn != nil {
 		spec := an.DecideSpec{Fn: fn,
-			Vars: []an.Var{an.Sign("targetVsCurrent")},
+			Vars:  []an.Var{an.Sign("targetVsCurrent")},
 			Conds: []an.CondMatcher{an.CmpCond("targetVsCurrent", isParamN(fn, 1), fieldIs("ReadyTarget", "currentTarget"))},
 			Effect: func(in ssa.Instruction) (string, bool) {
 				if lbl, ok := syncEffects("ReadyTarget")(in); ok {
